@@ -169,6 +169,31 @@ Theorem C13_h3_request_dump_is_wire : forall ds enc fs chunks fl,
 Proof. exact h3_send_identity_log. Qed.
 Print Assumptions C13_h3_request_dump_is_wire.
 
+(* response side, per (dumper, writer), any body reader and any schedule of caller reads: the
+   header block as received (HTTP/1.1: the readLine fragments, which concatenate to the consumed
+   stream - C13_response_header_dump_is_stream; h2/h3: one line per decoded field + CRLF) at the
+   writer resolved for response headers, every delivered body slice once at the writer resolved
+   for response bodies, CRLF at Output when the reader reports io.EOF - and nothing else *)
+Theorem C13_h1_response_dump_content : forall St i o w ds n stream (r : rfn St) b0 sizes,
+  NoDup (map fst ds) -> In (i, o) ds -> should_dump ds = true ->
+  let '(lines, e, rest, frags) := read_block read_line_dump n (S (length stream)) stream [] [] in
+  content i w (snd (h1_recv ds n stream r b0 sizes)) =
+  (if enabled o PRespH && N.eqb w (resolve o PRespH) then concat frags else []) ++
+  match e with
+  | BBlank => flat_map (read_bytes_for o w) (snd (read_all r b0 sizes))
+  | _ => []
+  end.
+Proof. exact @h1_recv_content. Qed.
+Print Assumptions C13_h1_response_dump_content.
+
+Theorem C13_h23_response_dump_content : forall St i o w ds fs (r : rfn St) b0 sizes,
+  NoDup (map fst ds) -> In (i, o) ds ->
+  content i w (snd (h23_recv ds fs r b0 sizes)) =
+  flat_map (hook_bytes_for o w) (field_hooks HRespHeader fs) ++
+  flat_map (read_bytes_for o w) (snd (read_all r b0 sizes)).
+Proof. exact @h23_recv_content. Qed.
+Print Assumptions C13_h23_response_dump_content.
+
 (* ---- tie to the source text (tables regenerated from the Go files by gosync on every run) ---- *)
 (* the model's writer resolution is the fall-back chain written in dump.go, for every option
    record and every part *)
